@@ -4,6 +4,7 @@ import (
 	"context"
 	"encoding/json"
 	"fmt"
+	"os"
 	"reflect"
 	"sort"
 	"strings"
@@ -153,6 +154,13 @@ func traceDiff(a, b []hist.TraceEntry, limit int) string {
 		}
 		if x.Kind == hist.OpPull {
 			if x.Info == "nondet" || y.Info == "nondet" {
+				if x.N != y.N || !reflect.DeepEqual(x.Pull, y.Pull) {
+					// a response the statement leaves open came out differently:
+					// from here on the handles of later acks name different
+					// deliveries in the two runs, so they are no longer twins
+					stats.C.Class("pairs-compared-up-to-an-open-response", 1)
+					return ""
+				}
 				continue
 			}
 			if x.Info == "truncated" || y.Info == "truncated" {
@@ -310,41 +318,73 @@ func checkConvergence(s *sut.SUT, cc c15Conv) (rule, detail string, rounds int) 
 	}
 	maxRounds := total + 5
 	var lastErrs []string
-	for rounds = 1; rounds <= maxRounds+len(cc.Orders); rounds++ {
-		order := cc.Orders[(rounds-1)%len(cc.Orders)]
-		batch := cc.Batches[(rounds-1)%len(cc.Batches)]
-		deleted := 0
-		lastErrs = nil
-		// time passes between rounds (a subscription expired by one round is old
-		// enough for the age threshold in the next)
-		sut.Advance(2 * minAge)
-		for _, j := range order {
-			name := convJobs[j]
-			if name == "sweep" {
-				a := actions.NewDeadLetterDeliveries(actions.DeadLetterDeliveriesParams{MaxDeliveries: batch})
-				if err := s.Client.DoCtxTx(ctx, nil, a.Execute); err != nil {
-					lastErrs = append(lastErrs, "sweep: "+err.Error())
-				} else if res, ok := a.Results(); ok {
-					deleted += res.NumDeadLettered
+	runRounds := func() {
+		for rounds = 1; rounds <= maxRounds+len(cc.Orders); rounds++ {
+			order := cc.Orders[(rounds-1)%len(cc.Orders)]
+			batch := cc.Batches[(rounds-1)%len(cc.Batches)]
+			deleted := 0
+			lastErrs = nil
+			// time passes between rounds (a subscription expired by one round is old
+			// enough for the age threshold in the next)
+			sut.Advance(2 * minAge)
+			for _, j := range order {
+				name := convJobs[j]
+				if name == "sweep" {
+					a := actions.NewDeadLetterDeliveries(actions.DeadLetterDeliveriesParams{MaxDeliveries: batch})
+					if err := s.Client.DoCtxTx(ctx, nil, a.Execute); err != nil {
+						lastErrs = append(lastErrs, "sweep: "+err.Error())
+					} else if res, ok := a.Results(); ok {
+						deleted += res.NumDeadLettered
+					}
+					continue
 				}
-				continue
+				n, err := hist.RunJob(ctx, s, name, minAge, batch)
+				if err != nil {
+					lastErrs = append(lastErrs, name+": "+err.Error())
+				}
+				if name != "expired-subscriptions" || n > 0 {
+					deleted += n
+				}
 			}
-			n, err := hist.RunJob(ctx, s, name, minAge, batch)
-			if err != nil {
-				lastErrs = append(lastErrs, name+": "+err.Error())
-			}
-			if name != "expired-subscriptions" || n > 0 {
-				deleted += n
+			if deleted == 0 {
+				break
 			}
 		}
-		if deleted == 0 {
-			break
-		}
+	}
+	runRounds()
+	if len(lastErrs) > 0 && rounds <= maxRounds && !cc.DeleteAll {
+		// part of the data is still alive, and a live delivery may pin what a
+		// job wants to remove (a dead-letter forward keeps the message of a
+		// deleted topic): that is not "stuck" unless it outlives the pin. Let
+		// every retention run out and go to the fixpoint again.
+		sut.Advance(8 * 24 * time.Hour)
+		runRounds()
 	}
 	if rounds > maxRounds {
 		return "no-fixpoint", fmt.Sprintf("after %d rounds of all maintenance jobs (initially %d rows) a round still deletes rows", rounds, total), rounds
 	}
 	if len(lastErrs) > 0 {
+		if os.Getenv("VERIF_DEBUG") != "" {
+			for _, q := range []string{
+				"select 'topic', id, name, deleted_at, live from topics",
+				"select 'sub', id, name, deleted_at, topic_id || ' dl=' || coalesce(dead_letter_topic_id,'-') from subscriptions",
+				"select 'msg', id, topic_id, '', '' from messages",
+				"select 'snap', id, name, topic_id, '' from snapshots",
+				"select 'del', id, subscription_id, completed_at, expires_at from deliveries",
+			} {
+				rows, err := s.Raw.Query(q)
+				if err != nil {
+					fmt.Println("   debug query failed:", err)
+					continue
+				}
+				for rows.Next() {
+					var a, b, c, d, e any
+					_ = rows.Scan(&a, &b, &c, &d, &e)
+					fmt.Printf("   left %v %v %v %v %v\n", a, b, c, d, e)
+				}
+				rows.Close()
+			}
+		}
 		return "job-stuck", fmt.Sprintf("at the fixpoint (round %d, nothing left to delete) these jobs still fail, and will fail on every later run: %v", rounds, lastErrs), rounds
 	}
 	// what may remain: live topics / subscriptions, topics still referenced by
